@@ -100,10 +100,12 @@ def def_source(d):
     for idx, nm in enumerate(("caller", "kwargs", "varargs")):
         body += "|"
         if d["uses"][idx] and idx not in d["params"]:
-            body += "{{ %s|show }}" % nm
+            # the only mention of the special name: printed, or an argument of a call block's call expression
+            body += ("{%% call fw(%s) %%}{%% endcall %%}" % nm) if d.get("fwd") else ("{{ %s|show }}" % nm)
         else:
             body += "-"
-    return ("{% set o1 = " + str(O1_DEF) + " %}{% macro m(" + ", ".join(ps) + ") %}" + body +
+    return ("{% macro fw(v) %}{{ v|show }}{{ caller() }}{% endmacro %}" if d.get("fwd") else "") + \
+        ("{% set o1 = " + str(O1_DEF) + " %}{% macro m(" + ", ".join(ps) + ") %}" + body +
             "{% endmacro %}{% set o1 = " + str(O1_CALL) + " %}")
 
 
@@ -279,6 +281,7 @@ def default_options(params, i):
     opts = ["ci7", "cN", "r10", "r11", "r12"]
     opts += [f"r{p}" for p in params[:i]][:1]
     opts += [f"r{p}" for p in params[i + 1:]][:1]
+    opts += [f"r{params[i]}"]                     # the parameter's own name: m(a=a)
     return opts
 
 
@@ -299,7 +302,7 @@ def signatures(ctx, max_n):
                 for uses in itertools.product((0, 1), repeat=3):
                     defaults = [ctx.rng.choice(default_options(params, n - nd + j)) for j in range(nd)]
                     out.append({"params": params, "defaults": defaults, "uses": list(uses),
-                                "o2": ctx.rng.random() < 0.5, "prelude": ctx.rng.random() < 0.25})
+                                "o2": ctx.rng.random() < 0.5, "prelude": ctx.rng.random() < 0.25, "fwd": ctx.rng.random() < 0.25})
     return out
 
 
@@ -344,7 +347,7 @@ def random_call(ctx, d, path):
 # ------------------------------------------------------------------ judging one case
 def judge(ctx, real, case, mline, finals_queue):
     d, c = case["def"], case["call"]
-    key = (tuple(d["params"]), tuple(d["defaults"]), tuple(d["uses"]), d["o2"], bool(d.get("prelude")))
+    key = (tuple(d["params"]), tuple(d["defaults"]), tuple(d["uses"]), d["o2"], bool(d.get("prelude")), bool(d.get("fwd")))
     fields = dict(f.split("=", 1) for f in mline.split(" "))
     mC = fields["C"]
     rd = real.compiled_def(d, key)
